@@ -965,7 +965,7 @@ class RPCInterface:
         try:
             value = int(numprocs)
             assert value > 0
-        except (ValueError, AssertionError):
+        except (TypeError, ValueError, AssertionError):
             self._raise(Faults.INCORRECT_PARAMETERS, 'update_numprocs',
                         f'program={program_name} incorrect numprocs={numprocs}',
                         'integer > 0 expected')
